@@ -3,6 +3,7 @@ package main
 import (
 	"fmt"
 	"go/types"
+	"strconv"
 	"strings"
 
 	"golang.org/x/tools/go/ssa"
@@ -252,6 +253,29 @@ func (sc *SCtx) traceBuiltin(x SCall) (Val, types.Type, bool, error) {
 			return Val{}, nil, true, err
 		}
 		return tv(app(SF64, "fp.neg", a.T)), types.Typ[types.Float64], true, nil
+	case "strOfRune":
+		// strOfRune(c): Go's string(rune(c)) - the same uninterpreted function the executor uses for the conversion
+		if len(x.Args) != 1 {
+			return Val{}, nil, true, fmt.Errorf("strOfRune(c) expects one argument")
+		}
+		a, _, err := sc.eval(x.Args[0])
+		if err != nil {
+			return Val{}, nil, true, err
+		}
+		e.declStr()
+		e.decls.fun("str_of_rune", []string{"Int"}, "Int")
+		return tv(app(SInt, "str_of_rune", a.T)), types.Typ[types.String], true, nil
+	case "f64":
+		// f64(n): the float64 constant with the integer value n (a literal, not a conversion)
+		n, ok := x.Args[0].(SNum)
+		if !ok || len(x.Args) != 1 {
+			return Val{}, nil, true, fmt.Errorf("f64(n) expects one integer literal")
+		}
+		f, err := strconv.ParseFloat(n.Val, 64)
+		if err != nil {
+			return Val{}, nil, true, err
+		}
+		return tv(f64Lit(f)), types.Typ[types.Float64], true, nil
 	case "i2f", "f2i", "band", "bor", "bxor", "shl", "shr", "mulw", "concat", "substr", "tdiv", "trem", "fadd", "fsub", "fmul", "fdiv", "flt", "fle", "feq":
 		var as2 []Term
 		for _, a := range x.Args {
